@@ -9,6 +9,7 @@ MCLifeAbsent0 == {-1, 0}
 MCLenSmall  == {-1}
 MCPermSeqsA == {<<"A">>}
 MCCredKinds == {"noMI"} \cup NonceDefects \cup OtherDefects
+MCCredKindsAnon == {"noMI", "staleNonce", "ghostEmptyKey", "wrongPw", "noUser"}
 MCMethods   == {"Allocate", "Refresh", "CreatePermission", "ChannelBind", "Connect", "ConnectionBind"}
 DepthBound  == TLCGet("level") <= MaxDepth
 ASSUME PrintT("META " \o ToJson([DefaultLife |-> DefaultLife, PermTO |-> PermTO, ChanTO |-> ChanTO,
